@@ -517,6 +517,43 @@ func c17Renderer(c *run.Ctx, idx uint64) {
 		return
 	}
 	bytesB := append([]byte(nil), bb...)
+	theme := false
+	if r.Chance(1, 6) && len(b) > 0 {
+		// History A is graphic B itself in another colour theme: the same calls
+		// in the same order (hence the same number of register writes before every
+		// path and byte-identical gradient descriptors), but another palette
+		// (B's gradient stops are palette-initialised registers), other direct
+		// colours and other gradient offsets, decoded into the same rectangle.
+		theme = true
+		kind = "same-icon-other-theme"
+		c.Count("A_is_B_in_another_colour_theme", 1)
+		themed := append([]rec.Op(nil), b...)
+		for i := range themed {
+			o := &themed[i]
+			switch o.K {
+			case rec.KSetCReg:
+				if sp := rec.Spec(o.Col); sp.Typ == ivg.ColorTypeRGBA && !(sp.RGBA.A == 0 && sp.RGBA.B >= 0x80) && r.Chance(2, 3) {
+					o.Col = ivg.RGBAColor(gen.Premul(r))
+				}
+			case rec.KSetNReg:
+				if o.F[0] > 0 && o.F[0] < 1 && r.Bool() {
+					o.F[0] *= 0.9
+				}
+			}
+		}
+		palA := gen.Palette(r)
+		vbA := vbB
+		if r.Chance(1, 3) {
+			vbA = ivg.DefaultViewBox
+		}
+		var eA encode.Encoder
+		eA.Reset(vbA, palA)
+		eA.HighResolutionCoordinates = true
+		rec.ApplyAll(&eA, themed)
+		if ab, e := eA.Bytes(); e == nil {
+			bytesA = append([]byte(nil), ab...)
+		}
+	}
 	for i := range b {
 		if b[i].K == rec.KSetCReg {
 			if s := rec.Spec(b[i].Col); s.Typ == ivg.ColorTypeRGBA && s.RGBA.A == 0 && s.RGBA.B >= 0x80 && s.RGBA.G&0x3f == 30 {
@@ -530,10 +567,30 @@ func c17Renderer(c *run.Ctx, idx uint64) {
 	if pixels {
 		rect = image.Rect(0, 0, r.Range(1, 100), r.Range(1, 100)).Add(image.Pt(r.Intn(30), r.Intn(30)))
 	}
+	// One pair in six hands graphic B to the Renderers call by call instead of
+	// through the decoder, with a palette in which some entries are not valid
+	// premultiplied colours (the decoder would never pass those on; a caller, a
+	// Generator or a logger may): whatever a Renderer makes of such entries, a
+	// reused one must make the same of them as a fresh one.
+	direct := r.Chance(1, 6)
+	palDirect := palB
+	if direct {
+		c.Count("B_applied_call_by_call_with_nonsensical_palette_entries", 1)
+		for n := r.Range(1, 12); n > 0; n-- {
+			k := gen.AnyRGBA(r)
+			if r.Chance(1, 3) {
+				k = gen.MakeGradientValue(30, 30, r.Intn(2), r.Intn(4), 2)
+			}
+			palDirect[r.Pick(r.Intn(64), 30, 31, 32)] = k
+		}
+	}
 	c.Count("pairs", 1)
 	c.Eval(run.HashBytes(bytesA)^run.HashBytes(bytesB)*31, true)
 	desc := func(extra map[string]interface{}) interface{} {
 		d := map[string]interface{}{"A_kind": kind, "A_bytes": hx(bytesA), "B_bytes": hx(bytesB), "rect": rect.String()}
+		if direct {
+			d["B_applied_call_by_call_with_palette"] = fmt.Sprint(palDirect)
+		}
 		for k, v := range extra {
 			d[k] = v
 		}
@@ -544,13 +601,21 @@ func c17Renderer(c *run.Ctx, idx uint64) {
 	}
 	// the Renderer may be pointed at another rasterizer / rectangle between decodes
 	rectA := rect
-	if r.Chance(1, 3) {
+	if r.Chance(1, 3) && !theme {
 		rectA = image.Rect(0, 0, r.Range(1, 300), r.Range(1, 300)).Add(image.Pt(r.Intn(90), r.Intn(90)))
 		if r.Chance(1, 3) {
 			rectA = rect.Add(image.Pt(r.Range(1, 70), r.Range(-20, 50))) // the same size somewhere else (cells of an atlas)
 			c.Count("A_rectangle_same_size_other_origin", 1)
 		}
 		c.Count("A_other_rectangle", 1)
+	}
+	applyB := func(z *render.Renderer) error {
+		if direct {
+			z.Reset(vbB, palDirect)
+			rec.ApplyAll(z, b)
+			return nil
+		}
+		return decode.Decode(z, bytesB)
 	}
 	probes := []image.Point{{0, 0}, {3, 5}, {rect.Dx() - 1, rect.Dy() - 1}}
 	var reused, fresh []rec.RCall
@@ -571,19 +636,19 @@ func c17Renderer(c *run.Ctx, idx uint64) {
 				z.SetRasterizer(rz, rect)
 			}
 		}
-		if r.Chance(1, 4) {
+		if r.Chance(1, 4) && !theme {
 			// the same Renderer also used directly in between
 			z.SetLOD(7, 8)
 			z.SetCSel(9)
 		}
 		rz.ResetLog()
-		errR = decode.Decode(&z, bytesB)
+		errR = applyB(&z)
 		reused = rz.Calls
 		selR = [2]uint8{z.CSel(), z.NSel()}
 		rzF := &rec.Raster{Probes: probes}
 		var zf render.Renderer
 		zf.SetRasterizer(rzF, rect)
-		errF = decode.Decode(&zf, bytesB)
+		errF = applyB(&zf)
 		fresh = rzF.Calls
 		selF = [2]uint8{zf.CSel(), zf.NSel()}
 	})
